@@ -712,6 +712,10 @@ class Project:
             if len(st) > 1 and st[1] == "separate":
                 # the repository data lives elsewhere and `.git` is a FILE (as in linked worktrees and submodules)
                 self.g("init", "-q", "-b", "main", "--separate-git-dir", self.root + "-gitdir")
+            elif len(st) > 1 and st[1] == "nested":
+                # the Conductor project (the directory holding cond_config.toml) is a SUB-DIRECTORY of the repository:
+                # there is no `.git` entry beside cond_config.toml
+                su.git(os.path.dirname(self.root), "init", "-q", "-b", "main")
             else:
                 self.g("init", "-q", "-b", "main")
             self.git_on = True
@@ -1120,6 +1124,8 @@ def part_e2e(chk, tier, only=None):
         scripts = [script_tags(), script_tags2(), script_merge(), script_modes(), script_modes2(), script_foreign()]
         # the same histories with `.git` being a file (linked worktree / submodule / --separate-git-dir layouts)
         scripts += [[("init", "separate") if st == ("init",) else st for st in sc] for sc in (script_merge(), script_tags())]
+        # ... and with the project in a sub-directory of the repository
+        scripts += [[("init", "nested") if st == ("init",) else st for st in sc] for sc in (script_merge(), script_foreign())]
         nrand = 4 if tier == "quick" else 60
         for _ in range(nrand):
             scripts.append(script_random(rng, 12 if tier == "quick" else 22))
